@@ -21,7 +21,16 @@ from . import AnalysisError
 
 def _apply(root: str, edits) -> bool:
     done = []
+    import subprocess
     for rel, old, new in edits:
+        if rel == "@patch":
+            # `old` = path of a unified diff against the repository root, `new` = True to apply it in reverse
+            top = os.path.dirname(os.path.dirname(root))  # <tmp>/src/dliswriter -> <tmp>
+            cmd = ["patch", "-p1", "-s", "-f", "-d", top, "-i", old] + (["-R"] if new else [])
+            r = subprocess.run(cmd, capture_output=True, text=True)
+            if r.returncode != 0:
+                return False
+            continue
         path = os.path.join(root, rel)
         if not os.path.exists(path):
             return False
@@ -46,6 +55,8 @@ def _run_variant(args):
         # the variant must still be valid Python (it must "compile")
         import ast
         for rel, _, _ in edits:
+            if rel == "@patch":
+                continue
             with open(os.path.join(dst, rel), encoding="utf-8") as f:
                 ast.parse(f.read())
         from .index import Index
@@ -76,8 +87,8 @@ def _run_variant(args):
 
 
 def run_variants(prop: str, pkg_dir: str, jobs: int = None):
-    from .variants import VARIANTS
-    todo = [v for v in VARIANTS if v["prop"] == prop]
+    from .variants import VARIANTS, seeded_variants
+    todo = [v for v in VARIANTS if v["prop"] == prop] + seeded_variants(prop)
     args = [(prop, v["id"], v["edits"], v["expect"], pkg_dir) for v in todo]
     results = {}
     if not args:
@@ -121,7 +132,7 @@ def judge(todo, results):
                 summary["failed"].append(f"{vid}: behaviour-preserving twin raised {keys}")
         else:
             exps = exp if isinstance(exp, (list, tuple)) else [exp]
-            if status == "ran" and any(e in fired for e in exps):
+            if status == "ran" and (any(e in fired for e in exps) or (exps == ["any"] and fired)):
                 summary["breaks_fired"] += 1
                 details.append({"id": vid, "expect": exp, "outcome": "fired", "reported": keys[:3],
                                 "what": v.get("what", "")})
